@@ -340,6 +340,10 @@ func checkC08(e *Engine, r *Report) {
 	})
 	_ = strings.HasPrefix
 
+	r.Rule("R7", "PROVENANCE+EFFECT", "simulations run on the StateDB's cache branch only: every sdk.Context a StateDB method passes on is the current cache context, and the caller's original context (the committed state a query was given) reaches only write-free callees — a write through it would persist although CommitMultiStore is never called for commit=false (shared with C03-R2)", 30, func() {
+		stateDbCtxDiscipline(e, r)
+	})
+
 	r.Rule("R6", "SIBLING-SCOPE", "simulated and delivered executions run the same state transition: the flag that only the delivery path raises (SenderPaidTheFee, set by the fee-deduction ante decorator) conditions nothing in the copied state transition except the credit of the unused-gas refund to the sender — in particular not the refund counter, the gas accounting or the gas pool (eth_call / tracing report the gas a delivery would use)", 1, func() {
 		off, n := deliveryFlagScope(e)
 		r.Check(len(off) == 0 && n > 0, "x/evm/keeper.StateTransition › only the sender credit depends on SenderPaidTheFee", e.Pos(e.Fn(pkgEvmKeeper, "StateTransition.refundGas").Pos()), itoa(n)+" statement(s) under the flag, all of them the credit or pure local computation", "gas accounting differs between simulation (flag unset) and delivery (flag set): "+strings.Join(off, "; "))
